@@ -265,6 +265,16 @@ package gen
 //@   ensures res == nil
 //@ end template
 
+// The required numeric field types feed every buffered value to their accumulator:
+// the interval of f.stats covers all of f.vals (inductive invariant of Add).
+//@ template T in Int32:int32 Int64:int64 Uint32:uint32 Uint64:uint64 Float32:float32 Float64:float64
+//@ pred covers_{T1}(f) := forall k in 0..#f.vals: !isNaN(f.vals[k]) ==> f.stats.min <= f.vals[k] && f.vals[k] <= f.stats.max
+//@ func (*{T}Field).Add
+//@   requires f != nil && okStats_{T1}(f.stats) && covers_{T1}(f)
+//@   modifies f, f.stats, HA(f.vals)
+//@   ensures[C12] okStats_{T1}(f.stats) && covers_{T1}(f) && #f.vals == old(#f.vals) + 1 && f.stats == old(f.stats)
+//@ end template
+
 // strings: bytewise order; "has" (ghost) records that a value was added
 //@ ghost field stringStats.has bool
 //@ ghost field stringOptionalStats.has bool
